@@ -8,6 +8,8 @@ Recv3Alphabet == {"CB", "KREF", "DREF", "KOTH", "JREF", "START3", "END3", "W3", 
 FlashWAlphabet == {"CB", "SFLW_65536", "SFLW_65537", "SFLW_65538", "SFLW_4294967297", "SFLW_MAX", "SFL2_1", "EFL2", "BIGB2", "DEP1"}
 RecvPAlphabet == {"START3", "START4", "PSTART3", "PSTART4", "END3", "END4", "PEND3", "W3", "R3", "W4"}
 NeedStartP == {"PSTART3", "PSTART4", "PEND3"}
+Flash6Alphabet == {"CB", "SFL6_1", "SFL6_2", "SFL6_3", "EFL6", "SFL2_1", "EFL2", "DEP1"}
+NeedSfl6 == {"SFL6_1", "SFL6_2", "SFL6_3"}
 NeedSflW == {"SFLW_65536", "SFLW_65537", "SFLW_65538", "SFLW_4294967297", "SFLW_MAX"}
 NeedStart == {"START3"}
 NeedStart34 == {"START3", "START4"}
